@@ -11,6 +11,10 @@
 
    Encodings (written by harness/c19.py):
      scalars      {"k":"int"|"dec"|"str","v":n}  as in LibOps ("dec": halves),
+                  {"k":"bint","big":limbs}, {"k":"bdec","num":limbs,"e":k} (the
+                  exact value num / 2^k of the double), {"k":"text","cp":[..]}
+                  for every other int, decimal and string (each value has ONE
+                  encoding: the compact one when it exists, bdec in lowest terms),
                   {"k":"list","items":[...]}, {"k":"other","v":0} for a value
                   outside the universe (never equal to a reference result)
      integers     limb records {"sg":..,"mag":[..]} (BigInt)
@@ -27,6 +31,7 @@ vars == <<l>>
 Ev == Trace[l]
 Bad(why)   == PrintT("@@BAD@@" \o ToJson([l |-> l, why |-> why]))
 Drift(why) == PrintT("@@DRIFT@@" \o ToJson([l |-> l, why |-> why]))
+Note(why)  == PrintT("@@NOTE@@" \o ToJson([l |-> l, why |-> why]))
 Check(c, why) == c \/ Bad(why)
 
 -----------------------------------------------------------------------------
@@ -44,6 +49,30 @@ NumClose(o, r) ==
 IsDyadic(d) == d \in {1, 2, 4, 8, 16, 32, 64, 128, 256, 512, 1024}
 \* exact where the exact result is a double, else tolerance (DESIGN 2.4)
 NumAgrees(o, r) == IF IsDyadic(r.d) THEN NumEq(o, r) ELSE NumClose(o, r)
+
+(* ... and, for lists with wide elements, against dyadic rationals in limbs.
+   Exact (to the last bit) where the double arithmetic of the textbook
+   left-to-right evaluation is exact (LibOps!ExactSum ...), else within 1e-9
+   of the magnitudes involved. *)
+ObsQ(o) == QQ(ObsNum(o), IF o.k = "int" THEN 0 ELSE o.e)
+\* |x| * 10^9 <= bound
+Within(x, bound) == QCmp(QScale(QAbs(x), E9), bound) <= 0
+SumOK(o, a) ==
+  /\ (o.k = "int") = AllIntX(a)
+  /\ IF ExactSum(a) THEN QCmp(ObsQ(o), SumQ(a)) = 0
+     ELSE Within(QSub(ObsQ(o), SumQ(a)), AbsSumQ(a))
+ProdOK(o, a) ==
+  /\ (o.k = "int") = AllIntX(a)
+  /\ IF ExactProd(a) THEN QCmp(ObsQ(o), ProdQ(a)) = 0
+     ELSE Within(QSub(ObsQ(o), ProdQ(a)), QAbs(ProdQ(a)))
+MeanOK(o, a) ==
+  IF ExactMean(a) THEN QCmp(ObsQ(o), MeanQ(a)) = 0
+  ELSE Within(QSub(QScale(ObsQ(o), FromInt(Len(a))), SumQ(a)), AbsSumQ(a))
+MedianOK(o, a) ==
+  IF Len(a) % 2 = 1 THEN QCmp(ObsQ(o), QV(MedLowEl(a))) = 0                 \* the middle element itself
+  ELSE IF ExactMedian(a) THEN QCmp(QScale(ObsQ(o), BTwo), MedianSumQ(a)) = 0
+  ELSE Within(QSub(QScale(ObsQ(o), BTwo), MedianSumQ(a)),
+              QAdd(QAbs(QV(MedLowEl(a))), QAbs(QV(MedHighEl(a)))))
 
 BigSum(s)  == LET f[i \in 0..Len(s)] == IF i = 0 THEN Zero ELSE Add(f[i - 1], s[i]) IN f[Len(s)]
 BigProd(s) == LET f[i \in 0..Len(s)] == IF i = 0 THEN One ELSE Mul(f[i - 1], s[i]) IN f[Len(s)]
@@ -91,6 +120,15 @@ KeyRef(op, a) ==
     [] op = "median_low"  -> MedianLowKey(a)
     [] op = "median_high" -> MedianHighKey(a)
 KeyOps == {"min", "max", "median_low", "median_high"}
+ElRef(op, a) ==
+  CASE op = "min" -> MinEl(a)
+    [] op = "max" -> MaxEl(a)
+    [] op = "median_low"  -> MedLowEl(a)
+    [] op = "median_high" -> MedHighEl(a)
+Compact(s) == \A i \in 1..Len(s) : s[i].k \in {"int", "dec", "str"}
+Scalars == {"int", "dec", "str", "bint", "bdec", "text"}
+\* results of at most this many bits are multiplied out by TLC
+PowExactBits == 600
 
 IntRef(op, a, b, k) ==
   CASE op = "pow"  -> Pow(a, k)
@@ -115,16 +153,33 @@ Accept ==
     [] op = "filter"   -> Check(Ev.ok /\ Ev.r = Filter(Ev.s, Ev.f, Ev.c), op)
     [] op = "map_list" -> Check(Ev.ok /\ Ev.r = MapList(Ev.s, Ev.f, Ev.c), op)
     [] op = "reduce"   -> Check(Ev.ok /\ Ev.r = Reduce(Ev.s, Ev.f), op)
-    [] op = "sum"  -> Check(Ev.ok /\ (Ev.r.k = "int") = Sum(Ev.a).int /\ NumEq(Ev.r, Sum(Ev.a).r), op)
-    [] op = "prod" -> Check(Ev.ok /\ (Ev.r.k = "int") = Prod(Ev.a).int /\ NumEq(Ev.r, Prod(Ev.a).r), op)
-    [] op = "mean"   -> Check(Ev.ok /\ NumAgrees(Ev.r, Mean(Ev.a)), op)
-    [] op = "median" -> Check(Ev.ok /\ NumAgrees(Ev.r, Median(Ev.a)), op)
-    [] op \in KeyOps -> Check(Ev.ok /\ Ev.r.k \in {"int", "dec", "str"}
-                              /\ IsNum(Ev.r) = IsNum(Ev.a[1])
-                              /\ Key(Ev.r) = KeyRef(op, Ev.a), op)
+    [] op = "sum"  -> IF Compact(Ev.a)
+                      THEN Check(Ev.ok /\ (Ev.r.k = "int") = Sum(Ev.a).int /\ NumEq(Ev.r, Sum(Ev.a).r), op)
+                      ELSE Check(Ev.ok /\ SumOK(Ev.r, Ev.a), op)
+    [] op = "prod" -> IF Compact(Ev.a)
+                      THEN Check(Ev.ok /\ (Ev.r.k = "int") = Prod(Ev.a).int /\ NumEq(Ev.r, Prod(Ev.a).r), op)
+                      ELSE Check(Ev.ok /\ ProdOK(Ev.r, Ev.a), op)
+    [] op = "mean"   -> IF Compact(Ev.a) THEN Check(Ev.ok /\ NumAgrees(Ev.r, Mean(Ev.a)), op)
+                        ELSE Check(Ev.ok /\ MeanOK(Ev.r, Ev.a), op)
+    [] op = "median" -> IF Compact(Ev.a) THEN Check(Ev.ok /\ NumAgrees(Ev.r, Median(Ev.a)), op)
+                        ELSE Check(Ev.ok /\ MedianOK(Ev.r, Ev.a), op)
+    [] op \in KeyOps -> IF Compact(Ev.a)
+                        THEN Check(Ev.ok /\ Ev.r.k \in {"int", "dec", "str"}
+                                   /\ IsNum(Ev.r) = IsNum(Ev.a[1])
+                                   /\ Key(Ev.r) = KeyRef(op, Ev.a), op)
+                        ELSE Check(Ev.ok /\ Ev.r.k \in Scalars /\ Equal(Ev.r, ElRef(op, Ev.a)), op)
     [] op = "isum"  -> Check(Ev.ok /\ Ev.r = BigSum(Ev.a), op)
     [] op = "iprod" -> Check(Ev.ok /\ Ev.r = BigProd(Ev.a), op)
     [] op \in IntOps -> Check(Ev.ok /\ Ev.r = IntRef(op, Ev.a, Ev.b, Ev.k), op)
+    \* pow with any int exponent >= 0 (limbs): multiplied out when the result is short (and for the
+    \* bases 0, 1, -1 whatever the exponent), else validated through the necessary conditions
+    \* LibOps!PowPlausible (the harness compares such a result with the host's power as well)
+    [] op = "powx" ->
+         IF Ev.kb.sg = 0 \/ Ev.a.sg = 0 \/ Abs(Ev.a) = One THEN Check(Ev.ok /\ Ev.r = PowX(Ev.a, Ev.kb), op)
+         ELSE IF Len(Ev.kb.mag) > 2 THEN Bad("exponent-too-large-for-the-trace-spec")
+         ELSE IF BitsMag(Ev.a.mag) * ToInt(Ev.kb) <= PowExactBits
+              THEN Check(Ev.ok /\ Ev.r = Pow(Ev.a, ToInt(Ev.kb)), op)
+              ELSE Check(Ev.ok /\ PowPlausible(Ev.r, Ev.a, ToInt(Ev.kb)), op) /\ Note("pow-necessary-conditions")
     [] op \in BitOps ->
          LET want == Val(BitRef(op, WordOfBig(Ev.a), WordOfBig(Ev.b), Ev.n)) IN
          \* (shift counts >= 32 included: every bit is shifted out, the
